@@ -1,3 +1,28 @@
-From Sigtools.Model Require Import Base Bind Algebra.
-Theorem C10_placeholder : True. Proof. exact I. Qed.
-Print Assumptions C10_placeholder.
+(* C10 — defaults, annotations and kinds of combined parameters. *)
+From Sigtools.Model Require Import Base Bind Roles Algebra.
+From Sigtools.Proofs Require Import SmallModel Basics.
+
+Theorem C10_optional_iff l r : has_def (concile l r) = has_def l && has_def r.
+Proof. exact (concile_optional_iff l r). Qed.
+Print Assumptions C10_optional_iff.
+
+Theorem C10_default l r d :
+  pdef (concile l r) = Some d ->
+  exists a b, pdef l = Some a /\ pdef r = Some b /\ ((a = b /\ d = a) \/ (a <> b /\ d = 0%N)).
+Proof. exact (concile_default l r d). Qed.
+Print Assumptions C10_default.
+
+Theorem C10_annotation l r :
+  (pann (concile l r), puann (concile l r)) =
+  match pann l, pann r with
+  | Some a, Some b => if N.eqb a b then (Some a, puann l) else (None, UEmpty)
+  | Some a, None => (Some a, puann l)
+  | None, Some b => (Some b, puann r)
+  | None, None => (None, UEmpty)
+  end.
+Proof. exact (concile_annotation l r). Qed.
+Print Assumptions C10_annotation.
+
+Theorem C10_name_kind l r : pname (concile l r) = pname l /\ pkind (concile l r) = pkind l.
+Proof. exact (concile_name_kind l r). Qed.
+Print Assumptions C10_name_kind.
